@@ -21,6 +21,8 @@ rm -f $O/*.o $O/fail
 # the library itself: unoptimised in the plain flavour, like the project's default build (recursion depth, store-to-load forwarding
 # and the like then are what the source says); optimised in the sanitizer and limit flavours
 LF="$CF"; [ "$FL" = plain ] && LF="-O0 $COMMON"
+# development aid (tools/libcov.sh): which lines and branches of the library the replays execute
+LK=""; [ -n "$VERIF_COV" ] && { LF="$LF -fprofile-instr-generate -fcoverage-mapping"; LK="-fprofile-instr-generate"; }
 for f in $REPO/cJSON.c $REPO/cJSON_Utils.c; do
   ( $CC $LF -c $f -o $O/$(basename $f .c).o || touch $O/fail ) &
 done
@@ -34,4 +36,4 @@ for o in cJSON cJSON_Utils; do
   [ "$FL" = tsan ] && continue     # the threads mode uses the C allocator as it is (the tracking allocator is single-threaded)
   objcopy --redefine-sym malloc=vd_libc_malloc --redefine-sym free=vd_libc_free --redefine-sym realloc=vd_libc_realloc $O/$o.o
 done
-$CC $CF $O/*.o -lm -lpthread -o ${VERIF_BIN:-$V/out/bin/vdrv-$FL}
+$CC $CF $LK $O/*.o -lm -lpthread -o ${VERIF_BIN:-$V/out/bin/vdrv-$FL}
